@@ -12,26 +12,31 @@ namespace AIToolbox {
 
     std::ostream & write(std::ostream & os, double d) {
         const auto oldPrecision = os.precision(std::numeric_limits<double>::max_digits10);
+        const auto oldFlags = os.setf(std::ios::dec, std::ios::basefield | std::ios::floatfield);
 
         os << d << '\n';
 
+        os.flags(oldFlags);
         os.precision(oldPrecision);
         return os;
     }
 
     std::ostream & write(std::ostream & os, const Vector & v) {
         const auto oldPrecision = os.precision(std::numeric_limits<double>::max_digits10);
+        const auto oldFlags = os.setf(std::ios::dec, std::ios::basefield | std::ios::floatfield);
 
         for (size_t i = 0; i < static_cast<size_t>(v.size()); ++i)
             os << v[i] << ' ';
         os << '\n';
 
+        os.flags(oldFlags);
         os.precision(oldPrecision);
         return os;
     }
 
     std::ostream & write(std::ostream & os, const Matrix2D & m) {
         const auto oldPrecision = os.precision(std::numeric_limits<double>::max_digits10);
+        const auto oldFlags = os.setf(std::ios::dec, std::ios::basefield | std::ios::floatfield);
 
         for (size_t i = 0; i < static_cast<size_t>(m.rows()); ++i) {
             for (size_t j = 0; j < static_cast<size_t>(m.cols()); ++j)
@@ -40,12 +45,14 @@ namespace AIToolbox {
         }
         os << '\n';
 
+        os.flags(oldFlags);
         os.precision(oldPrecision);
         return os;
     }
 
     std::ostream & write(std::ostream & os, const SparseMatrix2D & m) {
         const auto oldPrecision = os.precision(std::numeric_limits<double>::max_digits10);
+        const auto oldFlags = os.setf(std::ios::dec, std::ios::basefield | std::ios::floatfield);
 
         // We need to first compute how many non-zero entries we have.
         size_t entriesNum = 0;
@@ -58,6 +65,7 @@ namespace AIToolbox {
             for (SparseMatrix2D::InnerIterator it(m, k); it; ++it)
                 os << it.row() << ' ' << it.col() << ' ' << it.value() << '\n';
 
+        os.flags(oldFlags);
         os.precision(oldPrecision);
         return os;
     }
@@ -75,16 +83,22 @@ namespace AIToolbox {
     }
 
     std::ostream & write(std::ostream & os, const Table2D & t) {
+        const auto oldFlags = os.setf(std::ios::dec, std::ios::basefield);
+
         for (size_t i = 0; i < static_cast<size_t>(t.rows()); ++i) {
             for (size_t j = 0; j < static_cast<size_t>(t.cols()); ++j)
                 os << t(i, j) << ' ';
             os << '\n';
         }
         os << '\n';
+
+        os.flags(oldFlags);
         return os;
     }
 
     std::ostream & write(std::ostream & os, const SparseTable2D & t) {
+        const auto oldFlags = os.setf(std::ios::dec, std::ios::basefield);
+
         // We need to first compute how many non-zero entries we have.
         size_t entriesNum = 0;
         for (int k = 0; k < t.outerSize(); ++k)
@@ -96,6 +110,7 @@ namespace AIToolbox {
             for (SparseTable2D::InnerIterator it(t, k); it; ++it)
                 os << it.row() << ' ' << it.col() << ' ' << it.value() << '\n';
 
+        os.flags(oldFlags);
         return os;
     }
 
